@@ -133,7 +133,7 @@ def _walk_assigns(stmts, acc):
             for v in s.cases.values(): _walk_assigns(v, acc)
         elif isinstance(s, (list, tuple)): _walk_assigns(s, acc)
 
-def tv_design(name, d, ios):
+def tv_design(name, d, ios, regular_comb=True):
     t0 = time.time()
     f0 = d.get_fragment(); ios = set(ios)
     for cdn in sorted(list_clock_domains(f0)):
@@ -145,7 +145,7 @@ def tv_design(name, d, ios):
     # FHDL side first (the printer mutates Memory port modes of multi-clock memories)
     inputs = [s for s in ios if cd is None or s is not cd.clk]
     fts = TS(copy_fragment(f0), inputs=inputs)
-    r = convert(copy_fragment(f0), ios=ios, name="top")                  # REAL back end
+    r = convert(copy_fragment(f0), ios=ios, name="top", regular_comb=regular_comb)      # REAL back end (regular_comb=False: the per-target printer used for simulation flows)
     try:
         vm = parse_module(r.main_source); vts = VTS(vm, r.data_files)
     except (VParseError, SyntaxError, AssertionError, KeyError, NotImplementedError) as e:
@@ -293,7 +293,11 @@ def _corpus():
             self.comb += [self.o.eq(0), If(self.sel == 0, self.o[0:4].eq(self.a)).Elif(self.sel == 1, self.o[4:8].eq(self.b)).Else(Cat(self.o[0:2], self.o[6:8]).eq(self.a))]
             self.comb += Case(self.sel, {0: self.p.eq(self.b), 1: self.p.eq(self.a), "default": self.p.eq(self.b - self.a)})
             self.sync += [self.q.eq(self.q + self.a), If(self.sel[0], arr[self.sel[1]].eq(self.a)), Case(~self.sel, {1: self.q[0:2].eq(3), 2: self.q.eq(self.b)})]
-    C.append(("statement-nests", lambda: (lambda d: (d, {d.a, d.b, d.sel, d.o, d.p, d.q, d.r0, d.r1}))(Stmts())))
+            # a matching Case branch WITHOUT statements does nothing (the default must not run for it), comb and sync
+            self.e = Signal(4); self.f = Signal(4, reset=5)
+            self.comb += Case(self.sel, {0: [], 1: self.e.eq(self.a), "default": self.e.eq(9)})
+            self.sync += Case(self.sel, {2: [], 3: self.f.eq(self.a), "default": self.f.eq(self.f + 1)})
+    C.append(("statement-nests", lambda: (lambda d: (d, {d.a, d.b, d.sel, d.o, d.p, d.q, d.r0, d.r1, d.e, d.f}))(Stmts())))
     # second batch: more of the real LiteX library (interconnect, bridges, packet, peripherals)
     from litex.soc.interconnect import packet, axi, ahb
     from litex.soc.cores import timer as _timer, uart as _uart, spi as _spi
@@ -349,11 +353,11 @@ def _corpus():
     C.append(("RS232PHYTX", txphy))
     return C
 
-def c_design(name):
+def c_design(name, regular_comb=True):
     for n, mkd in _corpus():
         if n == name:
             d, ios = mkd()
-            return dict(results=tv_design(n, d, ios), functions=["litex.gen.fhdl.verilog.convert", "litex.gen.fhdl.verilog._generate_node", "litex.gen.fhdl.verilog._generate_signals", "litex.gen.fhdl.verilog._generate_combinatorial_logic_synth",
+            return dict(results=tv_design(n, d, ios, regular_comb), functions=["litex.gen.fhdl.verilog.convert", "litex.gen.fhdl.verilog._generate_node", "litex.gen.fhdl.verilog._generate_signals", "litex.gen.fhdl.verilog._generate_combinatorial_logic_synth",
                                                                  "litex.gen.fhdl.verilog._generate_synchronous_logic", "litex.gen.fhdl.memory._memory_generate_verilog"], samples=[dict(program=n)])
     raise KeyError(name)
 
@@ -395,6 +399,7 @@ def cases(tier):
     cs = [VCase(f"expr[{n}]", c_templates, [n], timeout=900) for n in names]
     cs += [VCase(f"expr-finding[{n}]", c_templates, [n], True, timeout=900) for n in FINDING_TEMPLATES]
     cs += [VCase(f"design[{n}]", c_design, n, timeout=900) for n, _ in _corpus()]
+    cs += [VCase(f"design-simcomb[{n}]", c_design, n, False, timeout=900) for n, _ in _corpus()]     # same programs through _generate_combinatorial_logic_sim
     cs.append(VCase("case-sim", c_case_sim))
     return cs
 
